@@ -839,7 +839,13 @@ def normalize_chunks(chunks, shape=None, limit=None, dtype=None, previous_chunks
     if isinstance(chunks, (Number, str)):
         chunks = (chunks,) * len(shape)
     if isinstance(chunks, dict):
-        chunks = tuple(chunks.get(i, None) for i in range(len(shape)))
+        ndim = len(shape)
+        by_axis = {}
+        for axis, c in chunks.items():
+            if not isinstance(axis, Integral) or not -ndim <= axis < ndim:
+                raise ValueError(f"Axis {axis!r} in chunks={chunks} is out of bounds for an array of dimension {ndim}")
+            by_axis[axis % ndim] = c
+        chunks = tuple(by_axis.get(i, None) for i in range(ndim))
     if isinstance(chunks, np.ndarray):
         chunks = chunks.tolist()
     if not chunks and shape and all(s == 0 for s in shape):
